@@ -194,7 +194,15 @@ fn process_dir(
 
                 let mut matcher_io = matchers::MatcherIO::new(deps);
 
-                let new_dir = entry.path().parent().map(|x| x.to_path_buf());
+                // Root paths like "/" have no parent: treat them as their own directory, so
+                // that a pending -execdir ... {} + batch for them is still dispatched.
+                let new_dir = Some(
+                    entry
+                        .path()
+                        .parent()
+                        .unwrap_or_else(|| entry.path())
+                        .to_path_buf(),
+                );
                 if new_dir != current_dir {
                     if let Some(dir) = current_dir.take() {
                         matcher.finished_dir(dir.as_path(), &mut matcher_io);
